@@ -277,6 +277,7 @@ def replay(doc):
 def main(tier):
     run = Run(PROP, tier, replay)
     run.map(check_case, gen_cases(tier), chunk=32, family="dead")
+    run.require("refused-call-accepted" not in run.classes, "a call of the refused-edits menu was accepted: the rej family is vacuous")
     run.require(run.stats["dead_rows"] > 1000 and run.stats["sleep_rows"] > 100, "too few dead / sleeping rows")
     return run.finish(
         rule="E1: every tree of the mid alphabet n<=3 (4 thorough) and every chain of the deep alphabet to depth 5 (6) with (a) the source at 0 V, "
